@@ -3,10 +3,10 @@ deletion, silence longer than the lease; safety + liveness under fair delivery) 
 (real DomainParticipants in one process, public API only, all traffic through hook H2 with seeded loss)."""
 from pipeline import run_pipeline
 
-LIVE = [("MC_System_live_del.cfg", 4), ("MC_System_live_late.cfg", 4), ("MC_System_live_blackout.cfg", 4)]
+LIVE = [("MC_System_live_del.cfg", 4), ("MC_System_live_late.cfg", 4), ("MC_System_live_blackout.cfg", 4), ("MC_System_live_post.cfg", 4)]
 TIERS = {
-    "quick": dict(mc=[("MC_System_q.cfg", 8)] + LIVE, replay_limit=16, jobs=16, random=dict(runs=8, events=1)),
-    "thorough": dict(mc=[("MC_System_t.cfg", 12)] + LIVE, replay_limit=160, jobs=16, random=dict(runs=64, events=1)),
+    "quick": dict(mc=[("MC_System_q.cfg", 8), ("MC_System_post.cfg", 8)] + LIVE, replay_limit=16, jobs=16, random=dict(runs=8, events=1)),
+    "thorough": dict(mc=[("MC_System_t.cfg", 12), ("MC_System_post.cfg", 8)] + LIVE, replay_limit=160, jobs=16, random=dict(runs=64, events=1)),
 }
 ASSUME = [
     "both participants live in one process; their datagrams are forwarded over loopback by the cfg-gated send hook (multicast fanned out to participant ids 0..4), so discovery does not depend on multicast routing",
